@@ -17,47 +17,20 @@ open TypeStr
 
 /-! ## 1. schema type strings (metadata.go parseType, helpers.go getCassandraType …)
 
-FULL PROPERTY (does NOT hold for the unchanged code):
-  `∀ s, (parseType false s).crashSite = none`
-The unchanged parser indexes `t.input[t.index]` at end of input in three places of parseParamNodes
-and indexes `params[0]` / `params[1]` / `params[count-1]` / dereferences a nil `param.name` without
-checking the parameter count (KF-C05-1 … KF-C05-4). -/
+The model is the code after the repairs of KF-C05-1 (parseParamNodes read `t.input[t.index]` at end of
+input in three places), KF-C05-2/3 (parse / asTypeInfo indexed `params[count-1]`, `params[0]`,
+`params[1]` and dereferenced a nil `param.name` without checking) and KF-C05-4 (apacheToCassandraType
+grew exponentially). -/
 
-/-- the decidable predicate characterising the known-bad strings: the unchanged parser reaches one
-of the seven unguarded accesses (`Site.known`), i.e. one of the guards of props/C05.fix-1.diff fires -/
-def tsKnownBad (s : Str) : Bool :=
-  match (parseType false s).crashSite with
-  | some x => x.known
-  | none => false
-
-/-- PARTIAL: outside the known-bad strings parseType cannot panic, for every byte string. The
-content: every OTHER index/slice expression of the parser (`t.input[startIndex:endIndex]`,
-`ast.params[:count]`) is in bounds for all inputs and the recursion terminates (fuel |s|+1 is
-never exhausted). -/
-theorem C05_typestrings_total_partial (s : Str) (h : tsKnownBad s = false) :
-    (parseType false s).crashSite = none := by
-  cases hc : parseType false s with
+/-- FULL: parseType cannot panic, for every byte string. The content: every index / slice expression of
+the parser (`t.input[t.index]` ×3, `t.input[startIndex:endIndex]`, `ast.params[count-1]`,
+`ast.params[:count]`, `class.params[0]`, `class.params[1]`, `*param.name`) is in bounds / non-nil for all
+inputs and the recursion terminates (fuel |s|+1 is never exhausted). -/
+theorem C05_typestrings_total (s : Str) : (parseType s).crashSite = none := by
+  cases hc : parseType s with
   | ok a => rfl
   | fail => rfl
-  | crash x =>
-    have hk := (C05TypeStr.parseType_known false s x hc).1
-    simp [tsKnownBad, hc, Out.crashSite, hk] at h
-
-/-- the same, site form: whatever panics in parseType panics at one of the seven known sites -/
-theorem C05_typestrings_crash_sites (s : Str) (x : Site) (h : (parseType false s).crashSite = some x) :
-    x.known = true := by
-  cases hc : parseType false s with
-  | ok a => simp [hc, Out.crashSite] at h
-  | fail => simp [hc, Out.crashSite] at h
-  | crash y =>
-    simp [hc, Out.crashSite] at h; subst h
-    exact (C05TypeStr.parseType_known false s y hc).1
-
-/-- an independent NECESSARY condition for the end-of-input site (KF-C05-1): the parser phase of
-parseType (`parseClass false (|s|+1) s`) runs off the end only on strings with more '(' than ')' -/
-theorem C05_typestrings_eof_unbalanced (s : Str)
-    (h : parseClass false (s.length + 1) s = .crash .paramsEof) : 1 ≤ C05TypeStr.bal s :=
-  C05TypeStr.eof_unbalanced s h
+  | crash x => exact absurd hc (C05TypeStr.parseType_noCrash s x)
 
 /-- getCassandraType / getTypeInfo (CQL type names of the v3 schema tables) never panic: the only
 slice expression `name[:len(name)-1]` is guarded by the prefix tests, the recursion terminates. -/
@@ -71,53 +44,40 @@ theorem C05_cqltypenames_total (s : Str) :
     | crash x => exact absurd hc (C05TypeStr.getTypeInfo_noCrash s x)
     | _ => rfl
 
+/-- ALLOCATION (part of the property: "never allocates memory wildly out of proportion to the bytes
+received"): the CQL translation of a Java class string is at most 18 times as long as the string -/
+theorem C05_typestring_alloc_bound (t : Str) : (apacheToCassandraType t).length ≤ 18 * t.length :=
+  C05TypeStr.apache_len t
+
 /-- byte lists of ASCII text for the witnesses -/
 def str (s : String) : Str := s.toList.map (·.toNat)
 
-/-! counterexamples (kernel-evaluated; the same strings are replayed on the real code) -/
-theorem C05_cex_typestring_unclosed : (parseType false [65, 40]).crashSite = some .paramsEof := by decide
-theorem C05_cex_typestring_unclosed_after_name : (parseType false [65, 40, 66]).crashSite = some .paramsEof := by decide
-theorem C05_cex_typestring_unclosed_after_class : (parseType false [65, 40, 66, 40, 67, 41]).crashSite = some .paramsEof := by decide
-theorem C05_cex_typestring_composite_empty : (parseType false (kCOMPOSITE ++ [40, 41])).crashSite = some .compositeNoParams := by decide
-theorem C05_cex_typestring_composite_bare : (parseType false kCOMPOSITE).crashSite = some .compositeNoParams := by decide
-theorem C05_cex_typestring_list_bare : (parseType false kLISTT).crashSite = some .listNoParams := by decide
-theorem C05_cex_typestring_set_bare : (parseType false kSETT).crashSite = some .setNoParams := by decide
-theorem C05_cex_typestring_map_one : (parseType false (kMAPT ++ [40, 65, 41])).crashSite = some .mapFewParams := by decide
-theorem C05_cex_typestring_reversed_bare : (parseType false kREVERSED).crashSite = some .reversedNoParams := by decide
-theorem C05_cex_typestring_collection_unnamed :
-    (parseType false (kCOMPOSITE ++ [40] ++ kCOLLECTION ++ [40, 65, 41, 41])).crashSite = some .collectionNoName := by decide +kernel
-
-/-- non-vacuity: well-formed strings are outside the known-bad set and parse -/
-example : tsKnownBad (kCOMPOSITE ++ [40] ++ kLISTT ++ [40, 65, 41, 44] ++ kREVERSED ++ [40, 66, 41, 41]) = false := by decide +kernel
-example : tsKnownBad [] = false := by decide
-
-/-- ALLOCATION (part of the property: "never allocates memory wildly out of proportion to the bytes
-received"): apacheToCassandraType replaces every field by its type name IN THE WHOLE STRING, so the
-11-byte string `c,u,s,t,o,m` becomes 331 bytes and `c,u,s,t,o,m,c,u` (15 bytes) 2232 bytes; the
-growth is exponential in the number of fields (35 bytes → 3.5 MB, ~60 bytes exhaust memory):
-KF-C05-5. No bound theorem is claimed for apacheToCassandraType. -/
-theorem C05_cex_typestring_alloc :
-    (apacheToCassandraType [99,44,117,44,115,44,116,44,111,44,109]).length = 331 ∧
-    (apacheToCassandraType [99,44,117,44,115,44,116,44,111,44,109,44,99,44,117]).length = 2232 := by decide +kernel
+/-! regression: the strings that crashed the parser before the repairs (the `ops` of KF-C05-1..4,
+replayed on the real code by the check) are custom types now; non-vacuity: a well-formed composite
+comparator still parses into its components -/
+example : (parseType [65, 40]).crashSite = none ∧ (parseType [65, 40, 66]).crashSite = none ∧
+    (parseType [65, 40, 66, 40, 67, 41]).crashSite = none := by decide
+example : renderOut renderResult (parseType [65, 40]) = "ok:S[c4128]{}" := by decide
+example : renderOut renderResult (parseType kCOMPOSITE) = renderOut renderResult (.ok (customResult kCOMPOSITE)) := by decide +kernel
+example : renderOut renderResult (parseType kLISTT) = renderOut renderResult (.ok (customResult kLISTT)) := by decide +kernel
+example : renderOut renderResult (parseType (kMAPT ++ [40, 65, 41])) = renderOut renderResult (.ok (customResult (kMAPT ++ [40, 65, 41]))) := by decide +kernel
+example : renderOut renderResult (parseType kREVERSED) = renderOut renderResult (.ok (customResult kREVERSED)) := by decide +kernel
+example : (parseType (kCOMPOSITE ++ [40] ++ kCOLLECTION ++ [40, 65, 41, 41])).crashSite = none := by decide +kernel
+example : renderOut renderResult (parseType (kCOMPOSITE ++ [40] ++ kLISTT ++ [40, 65, 41, 44] ++ kREVERSED ++ [40, 66, 41, 41]))
+    = "ok:C[L(c41),r:c42]{}" := by decide +kernel
+/-- `c,u,s,t,o,m` (11 bytes) became 331 bytes, `c,u,s,t,o,m,c,u` 2232 bytes before the repair of KF-C05-4 -/
+example : (apacheToCassandraType [99,44,117,44,115,44,116,44,111,44,109]).length = 46 := by decide +kernel
 
 end typestrings
 
 /-! ## 4. response frames (frame.go parseFrame and the primitive readers 1771-1937)
 
-FULL PROPERTY (does NOT hold for the unchanged code):
-  `∀ proto resp flags op body, (parseFrame false proto resp flags op body).crashSite = none`
-Known bad: readInetAdressOnly slices `size` (4/16) bytes behind `len(f.buf) < 1` (KF-C05-6, EVENT
-STATUS_CHANGE / TOPOLOGY_CHANGE on a bare goroutine and the v5 error map); parsePreparedMetadata
-`make([]int, pkeyCount)` with a negative count (KF-C05-7). -/
+The model is the code after the repairs of KF-C05-5 (readInetAdressOnly sliced `size` (4/16) bytes
+behind `len(f.buf) < 1`: EVENT STATUS_CHANGE / TOPOLOGY_CHANGE on the connection's goroutine and the v5
+error map), KF-C05-6/7 (parsePreparedMetadata `make([]int, pkeyCount)` with a negative / unchecked
+count) and KF-C05-8 (readTypeInfo `make` of an unchecked tuple / UDT element count). -/
 section frames
 open FrameCrash
-
-/-- the decidable predicate characterising the known-bad frames: the unchanged parser reaches one of
-the two weak guards with too few bytes / a negative count (`Site.known`) -/
-def frameKnownBad (proto : Nat) (resp : Bool) (flags op : Nat) (body : Bytes) : Bool :=
-  match (parseFrame false proto resp flags op body).crashSite with
-  | some s => s.known
-  | none => false
 
 /-- the generic lemma: a primitive reader whose length check is at least what it slices cannot
 crash on any buffer; every fixed-size primitive of the table satisfies it -/
@@ -126,73 +86,88 @@ theorem C05_prim_guard_ge_need (site : FrameCrash.Site) (guard need : Nat) (h : 
 
 theorem C05_prim_table : ∀ p ∈ primTable, p.2.2 ≤ p.2.1 := C05Frame.primTable_ok
 
-/-- PARTIAL: for every protocol version, direction bit, header flags, opcode and body, parseFrame's
-only run-time panics are the two known sites. The content: every OTHER read of the parser (all
-primitives, all error codes, result kinds, metadata, type descriptions of any nesting, schema
-changes, events, SUPPORTED, AUTH frames, tracing / warning / custom-payload prefixes) is guarded, and
-the type-description recursion terminates (fuel |body|+1 is never exhausted). -/
-theorem C05_frame_total_partial (proto : Nat) (resp : Bool) (flags op : Nat) (body : Bytes)
-    (h : frameKnownBad proto resp flags op body = false) :
-    (parseFrame false proto resp flags op body).crashSite = none := by
-  cases hc : (parseFrame false proto resp flags op body).crashSite with
-  | none => rfl
-  | some s =>
-    have hk := (C05Frame.parseFrame_known false proto resp flags op body s hc).1
-    simp [frameKnownBad, hc, hk] at h
+/-- FULL: for every protocol version, direction bit, header flags, opcode and body, parseFrame raises
+no run-time panic. The content: every read of the parser (all primitives, all error codes, result
+kinds, metadata, the partition-key list, type descriptions of any nesting, schema changes, events incl.
+their inet addresses, SUPPORTED, AUTH frames, tracing / warning / custom-payload prefixes) is guarded,
+no `make` gets a negative size, and the type-description recursion terminates (fuel |body|+1 is never
+exhausted). -/
+theorem C05_frame_total (proto : Nat) (resp : Bool) (flags op : Nat) (body : Bytes) :
+    (parseFrame proto resp flags op body).crashSite = none :=
+  C05Frame.parseFrame_noCrash proto resp flags op body
 
-theorem C05_frame_crash_sites (proto : Nat) (resp : Bool) (flags op : Nat) (body : Bytes) (s : FrameCrash.Site)
-    (h : (parseFrame false proto resp flags op body).crashSite = some s) : s.known = true :=
-  (C05Frame.parseFrame_known false proto resp flags op body s h).1
+/-! regression: the frames that crashed the parser before the repairs (the `ops` of KF-C05-5, 6) are
+parse errors now -/
+/-- EVENT STATUS_CHANGE "UP", inet size 16 with 2 bytes left (protocol 4); TOPOLOGY_CHANGE with a 4-byte
+address and 3 bytes left; RESULT/PREPARED (protocol 4) with partition-key count −1 -/
+theorem C05_former_frame_witnesses_are_errors :
+    (parseFrame 4 true 0 0x0C
+      [0, 13, 83, 84, 65, 84, 85, 83, 95, 67, 72, 65, 78, 71, 69, 0, 2, 85, 80, 16, 254, 128]).isErr = true ∧
+    (parseFrame 3 true 0 0x0C
+      [0, 15, 84, 79, 80, 79, 76, 79, 71, 89, 95, 67, 72, 65, 78, 71, 69, 0, 8, 78, 69, 87, 95, 78, 79, 68, 69, 4, 10, 0, 0]).isErr = true ∧
+    (parseFrame 4 true 0 0x08
+      [0, 0, 0, 4, 0, 2, 1, 2, 0, 0, 0, 4, 0, 0, 0, 0, 255, 255, 255, 255]).isErr = true := by decide +kernel
 
-/-- D6: EVENT STATUS_CHANGE "UP", inet size 16 with 2 bytes left (protocol 4) -/
-theorem C05_cex_frame_event_short_inet :
-    (parseFrame false 4 true 0 0x0C
-      [0, 13, 83, 84, 65, 84, 85, 83, 95, 67, 72, 65, 78, 71, 69, 0, 2, 85, 80, 16, 254, 128]).crashSite
-      = some .inetBody := by decide +kernel
+example : (parseFrame 4 true 0 0x02 []).crashSite = none := by decide +kernel
 
-/-- the same site through TOPOLOGY_CHANGE with a 4-byte address and 3 bytes left -/
-theorem C05_cex_frame_event_short_inet4 :
-    (parseFrame false 3 true 0 0x0C
-      [0, 15, 84, 79, 80, 79, 76, 79, 71, 89, 95, 67, 72, 65, 78, 71, 69, 0, 8, 78, 69, 87, 95, 78, 79, 68, 69, 4, 10, 0, 0]).crashSite
-      = some .inetBody := by decide +kernel
-
-/-- D7: RESULT/PREPARED (protocol 4) with partition-key count −1 -/
-theorem C05_cex_frame_prepared_negative_pk :
-    (parseFrame false 4 true 0 0x08
-      [0, 0, 0, 4, 0, 2, 1, 2, 0, 0, 0, 4, 0, 0, 0, 0, 255, 255, 255, 255]).crashSite = some .pkeysMake := by decide +kernel
-
-example : frameKnownBad 4 true 0 0x02 [] = false := by decide +kernel
-
-/-! ### recursion depth (KF-C05-13)
+/-! ### recursion depth (KF-C05-13, open)
 
 The nesting depth of a parsed type description — the depth of readTypeInfo's recursion, hence its
 goroutine stack use — is bounded by the number of unread body bytes and by nothing else: 2 bytes per
 level suffice (`00 20` = list<…>). Go's stack limit is not part of the model; the measured
 ≥ 336 bytes of stack per level make a 4 MB body fatal (subprocess scenario `deep`). -/
 
-theorem C05_typeinfo_depth_le_body (st : St) (t : TI) (st' : St) (h : readTypeInfoTop false st = .ok t st') :
-    tiDepth t ≤ st.buf.length + 1 := C05Rows.typeInfoTop_depth false st t st' h
+theorem C05_typeinfo_depth_le_body (st : St) (t : TI) (st' : St) (h : readTypeInfoTop st = .ok t st') :
+    tiDepth t ≤ st.buf.length + 1 := C05Rows.typeInfoTop_depth st t st' h
 
 /-- 8 bytes → depth 4: list<list<list<int>>> -/
 theorem C05_cex_typeinfo_depth :
-    (match readTypeInfoTop false { buf := [0, 32, 0, 32, 0, 32, 0, 9], alloc := 0 } with
+    (match readTypeInfoTop { buf := [0, 32, 0, 32, 0, 32, 0, 9], alloc := 0 } with
      | .ok t _ => tiDepth t
      | _ => 0) = 4 := by decide +kernel
 
 /-! ### allocation -/
 
-/-- D7 (allocation): an 18-byte PREPARED body makes parsePreparedMetadata allocate 8·2^24 bytes
-(128 MiB; 16 GiB for count 2^31−1) before it finds the body exhausted (KF-C05-8) -/
-theorem C05_cex_alloc_pk_count :
-    (parseFrame false 4 true 0 0x08 [0, 0, 0, 4, 0, 0, 0, 0, 0, 4, 0, 0, 0, 0, 1, 0, 0, 0]).allocated = 134217728 := by
+/-- the partition-key index list: what parsePreparedMetadata allocates for it (8 bytes per index) is
+at most 4 times the unread body (`pkeyCount*2 > len(f.buf)` is rejected before `make`) -/
+theorem C05_alloc_pk_guard (pk : Nat) (st : St) (h : ¬ 2 * pk > st.buf.length) : 8 * pk ≤ 4 * st.buf.length := by
+  omega
+
+/-- a tuple / UDT element list: what readTypeInfo allocates for ONE description (16 / 32 bytes per
+element) is at most 8 times the unread body; `guardCount` rejects the count otherwise, before `make` -/
+theorem C05_alloc_typeinfo_guard (k n : Nat) (st : St) (u : Unit) (st' : St)
+    (h : guardCount (k * n) st = .ok u st') : st' = st ∧ 8 * k * n ≤ 8 * st.buf.length := by
+  unfold guardCount at h
+  split at h
+  · cases h
+  · cases h
+    refine ⟨rfl, ?_⟩
+    rename_i hg
+    have : k * n ≤ st.buf.length := by omega
+    calc 8 * k * n = 8 * (k * n) := by rw [Nat.mul_assoc]
+      _ ≤ 8 * st.buf.length := Nat.mul_le_mul_left 8 this
+
+/-- regression (KF-C05-7): the 18-byte PREPARED body announcing 2^24 partition-key indices allocated
+128 MiB before the repair; it is rejected before the allocation now. (KF-C05-8): three nested tuple
+descriptions announcing 65535 elements each allocated 3 MiB; rejected before the first `make` now. -/
+theorem C05_former_alloc_witnesses :
+    (parseFrame 4 true 0 0x08 [0, 0, 0, 4, 0, 0, 0, 0, 0, 4, 0, 0, 0, 0, 1, 0, 0, 0]).isErr = true ∧
+    (parseFrame 4 true 0 0x08 [0, 0, 0, 4, 0, 0, 0, 0, 0, 4, 0, 0, 0, 0, 1, 0, 0, 0]).allocated = 0 ∧
+    (parseFrame 4 true 0 0x08
+      [0, 0, 0, 2, 0, 0, 0, 1, 0, 0, 0, 1, 0, 1, 107, 0, 1, 116, 0, 1, 99,
+       0, 49, 255, 255, 0, 49, 255, 255, 0, 49, 255, 255]).allocated ≤ 256 := by
   decide +kernel
 
-/-- nested tuple descriptions: each level costs 4 body bytes and allocates 16·65535 bytes, all
-levels alive at once (KF-C05-9; a 4 KiB body → 1 GiB) -/
-theorem C05_cex_alloc_nested_tuples :
-    (parseFrame false 4 true 0 0x08
-      [0, 0, 0, 2, 0, 0, 0, 1, 0, 0, 0, 1, 0, 1, 107, 0, 1, 116, 0, 1, 99,
-       0, 49, 255, 255, 0, 49, 255, 255, 0, 49, 255, 255]).allocated ≥ 3 * (16 * 65535) := by
+/-- NO linear bound for parseFrame as a whole (KF-C05-8, still open in this form): the element-count
+guard compares with the bytes still unread at THAT level, and nested descriptions are all alive at
+once, so k nested tuple descriptions `00 31 <n_i>` with n_i = (bytes left)/2 allocate about
+8·|body| each: quadratic in the body. 10 levels in 61 bytes allocate 1440 bytes of element slots
+(vs 16·9 if counts were exact). -/
+theorem C05_cex_alloc_nested_quadratic :
+    (parseFrame 4 true 0 0x08
+      ([0, 0, 0, 2, 0, 0, 0, 1, 0, 0, 0, 1, 0, 1, 107, 0, 1, 116, 0, 1, 99] ++
+       [0, 49, 0, 18, 0, 49, 0, 16, 0, 49, 0, 14, 0, 49, 0, 12, 0, 49, 0, 10, 0, 49, 0, 8, 0, 49, 0, 6, 0, 49, 0, 4,
+        0, 49, 0, 2, 0, 49, 0, 0])).allocated ≥ 16 * (18 + 16 + 14 + 12 + 10 + 8 + 6 + 4 + 2) := by
   decide +kernel
 
 /-- readFrame: PARTIAL allocation bound — when the announced body arrives, what was allocated for
@@ -231,55 +206,60 @@ end frames
 
 /-! ## 3. row iteration (session.go Iter.Scan / readColumn / scanColumn)
 
-FULL PROPERTY (does NOT hold): `∀ proto flags body o, iterate false proto flags body = some o → o.crashSite = none`
-Known bad: fewer than 4 bytes left when a cell length is read → framer.readInt `panic(error)` escapes
-Iter.Scan (KF-C05-11); a column list ending in 0-element tuples → `dest[0]` on an empty slice
-(KF-C05-12); a tuple cell whose field length exceeds the cell → marshal.go readBytes (KF-C05-13). -/
+The model is the code after the repairs of KF-C05-10 (fewer than 4 bytes left when a cell length is
+read: framer.readInt's `panic(error)` escaped Iter.Scan), KF-C05-11 (a column list ending in 0-element
+tuples: `dest[0]` on an empty slice) and KF-C05-12 (a tuple cell whose field length exceeds the cell:
+marshal.go readBytes). -/
 section rows
 open FrameCrash RowsCrash C05Rows
 
-def rowsKnownBad (proto flags : Nat) (body : Bytes) : Bool :=
-  match iterate false proto flags body with
-  | some o => (match o.crashSite with | some s => s.known | none => false)
-  | none => false
+/-- FULL: iterating ANY result body (every row/column count, every cell length, every truncation)
+never panics: short bodies and missing destinations are errors, and `dest[i:]` / `dest[:count]` are
+always in bounds (the destination count is exactly what the parsed metadata adds up to). -/
+theorem C05_rows_total (proto flags : Nat) (body : Bytes) (o : ROut)
+    (ho : iterate proto flags body = some o) : o.crashSite = none := by
+  unfold iterate at ho
+  split at ho
+  · rename_i m n st hp
+    cases ho
+    exact C05Rows.scanAll_safe m (C05Rows.parsed_meta_ok proto true flags 8 body m n st hp) n st.buf
+  · cases ho
 
-/-- PARTIAL: iterating ANY result body (every row/column count, every cell length, every
-truncation) panics only at the three known sites: `dest[i:]` / `dest[:count]` are always in bounds
-(the destination count is exactly what the parsed metadata adds up to). -/
-theorem C05_rows_total_partial (proto flags : Nat) (body : Bytes) (o : ROut)
-    (ho : iterate false proto flags body = some o) (h : rowsKnownBad proto flags body = false) :
-    o.crashSite = none := by
-  cases hc : o.crashSite with
-  | none => rfl
-  | some s =>
-    unfold iterate at ho
-    split at ho
-    · rename_i m n st hp
-      cases ho
-      have hm := C05Rows.parsed_meta_ok false proto true flags 8 body m n st hp
-      have hk := (C05Rows.scanAll_known false m hm n st.buf s hc).1
-      simp [rowsKnownBad, iterate, hp, hc, hk] at h
-    · cases ho
-
-/-- D12: one int column, 2 rows announced, body ends after the first cell -/
-theorem C05_cex_rows_short_body :
-    iterate false 4 0 [0, 0, 0, 2, 0, 0, 0, 1, 0, 0, 0, 1, 0, 1, 107, 0, 1, 116, 0, 1, 99, 0, 9, 0, 0, 0, 2, 0, 0, 0, 1, 7]
-      = some (.crash .readIntShort) := by decide +kernel
-
-/-- a single column of type tuple<> (no elements): Scan indexes an empty destination list -/
-theorem C05_cex_rows_empty_tuple :
-    iterate false 4 0 [0, 0, 0, 2, 0, 0, 0, 1, 0, 0, 0, 1, 0, 1, 107, 0, 1, 116, 0, 1, 99, 0, 49, 0, 0, 0, 0, 0, 1, 255, 255, 255, 255]
-      = some (.crash .destIndex) := by decide +kernel
-
-/-- D12: tuple<int,int> cell of 5 bytes whose first field announces 9 bytes -/
-theorem C05_cex_rows_tuple_field :
-    iterate false 4 0 [0, 0, 0, 2, 0, 0, 0, 1, 0, 0, 0, 1, 0, 1, 107, 0, 1, 116, 0, 1, 99, 0, 49, 0, 2, 0, 9, 0, 9,
+/-- regression: the result bodies that crashed Iter.Scan before the repairs (the `ops` of KF-C05-10, 11,
+12) end in an error now: one int column, 2 rows announced, body ends after the first cell; a single
+column of type tuple<> (no elements); tuple<int,int> cell of 5 bytes whose first field announces 9 -/
+theorem C05_former_rows_witnesses_are_errors :
+    iterate 4 0 [0, 0, 0, 2, 0, 0, 0, 1, 0, 0, 0, 1, 0, 1, 107, 0, 1, 116, 0, 1, 99, 0, 9, 0, 0, 0, 2, 0, 0, 0, 1, 7]
+      = some (.err 1) ∧
+    iterate 4 0 [0, 0, 0, 2, 0, 0, 0, 1, 0, 0, 0, 1, 0, 1, 107, 0, 1, 116, 0, 1, 99, 0, 49, 0, 0, 0, 0, 0, 1, 255, 255, 255, 255]
+      = some (.err 0) ∧
+    iterate 4 0 [0, 0, 0, 2, 0, 0, 0, 1, 0, 0, 0, 1, 0, 1, 107, 0, 1, 116, 0, 1, 99, 0, 49, 0, 2, 0, 9, 0, 9,
                        0, 0, 0, 1, 0, 0, 0, 5, 0, 0, 0, 9, 7]
-      = some (.crash .tupleField) := by decide +kernel
+      = some (.err 0) := by decide +kernel
 
 /-- non-vacuity: the same frame with both cells present iterates two rows -/
-example : iterate false 4 0 [0, 0, 0, 2, 0, 0, 0, 1, 0, 0, 0, 1, 0, 1, 107, 0, 1, 116, 0, 1, 99, 0, 9, 0, 0, 0, 2,
+example : iterate 4 0 [0, 0, 0, 2, 0, 0, 0, 1, 0, 0, 0, 1, 0, 1, 107, 0, 1, 116, 0, 1, 99, 0, 9, 0, 0, 0, 2,
                              0, 0, 0, 1, 7, 255, 255, 255, 255] = some (.ok 2) := by decide +kernel
+
+/-! ### allocation of the row consumers (Scan loops, Scanner, MapScan, SliceMap, RowData) -/
+
+/-- however many rows a ROWS frame announces, a consumer gets through at most one row per 4 bytes of the
+row set it received (one described column at least): the announced count costs nothing by itself -/
+theorem C05_rows_scanned_le_body (m : Meta) (hc : m.cols ≠ []) (numRows : Nat) (rest : Bytes) :
+    4 * (scanAll m numRows rest).rows ≤ rest.length := C05Rows.rows_scanned_le_body m hc numRows rest
+
+/-- ALLOCATION BOUND for the row consumers: the model's allocation counter (one unit per destination and
+row scanned, plus the bytes of the row set) is at most (|rows|/4 + 1)·(destinations + 1) + |rows|, for every
+announced row count (spec-backed op `alloc rows …`: the real code's bytes allocated are compared with
+this bound times generous per-unit constants) -/
+theorem C05_rows_alloc_bound (m : Meta) (hc : m.cols ≠ []) (numRows : Nat) (rest : Bytes) :
+    consumeUnits m numRows rest ≤ consumeBound m rest := C05Rows.consumeUnits_le_bound m hc numRows rest
+
+/-- non-vacuity / the witness of the seeded change C05-2: one int column, 2^24 rows announced, 6 bytes of
+row set: 2 allocation units per row for at most 1 + 1 rows -/
+example : (match parseFrame 4 true 0 8 [0,0,0,2, 0,0,0,1, 0,0,0,1, 0,2,107,115, 0,1,116, 0,1,99, 0,9, 1,0,0,0, 0,0,0,8, 0,1] with
+    | .ok (.rows m n) st => (n, consumeUnits m n st.buf, consumeBound m st.buf)
+    | _ => (0, 0, 0)) = (16777216, 8, 10) := by decide +kernel
 
 /-! ### MapScan / SliceMap destinations (Iter.RowData → helpers.go goType)
 
@@ -303,79 +283,49 @@ theorem C05_rowdata_old_partial (cols : List TI) (n : Nat) (h : ∀ c ∈ cols, 
 /-- … and a panic on the legal column type map<frozen<list<int>>, int>, which is an error now -/
 theorem C05_rowdata_map_key_list_fixed :
     newRowOld 4 0 [0, 0, 0, 2, 0, 0, 0, 1, 0, 0, 0, 1, 0, 1, 107, 0, 1, 116, 0, 1, 99, 0, 33, 0, 32, 0, 9, 0, 9, 0, 0, 0, 0] = some .crashMapOf ∧
-    newRow false 4 0 [0, 0, 0, 2, 0, 0, 0, 1, 0, 0, 0, 1, 0, 1, 107, 0, 1, 116, 0, 1, 99, 0, 33, 0, 32, 0, 9, 0, 9, 0, 0, 0, 0] = some .err := by decide +kernel
+    newRow 4 0 [0, 0, 0, 2, 0, 0, 0, 1, 0, 0, 0, 1, 0, 1, 107, 0, 1, 116, 0, 1, 99, 0, 33, 0, 32, 0, 9, 0, 9, 0, 0, 0, 0] = some .err := by decide +kernel
 
 /-- non-vacuity: map<int, list<int>> is fine -/
-example : newRow false 4 0 [0, 0, 0, 2, 0, 0, 0, 1, 0, 0, 0, 1, 0, 1, 107, 0, 1, 116, 0, 1, 99, 0, 33, 0, 9, 0, 32, 0, 9, 0, 0, 0, 0] = some (.ok 1) := by decide +kernel
+example : newRow 4 0 [0, 0, 0, 2, 0, 0, 0, 1, 0, 0, 0, 1, 0, 1, 107, 0, 1, 116, 0, 1, 99, 0, 33, 0, 9, 0, 32, 0, 9, 0, 0, 0, 0] = some (.ok 1) := by decide +kernel
 
 end rows
 
 /-! ## 2. value decoders (marshal.go Unmarshal on arbitrary bytes)
 
-Full statement, the known-bad predicate, closed-form site conditions and the counterexamples
-(`C05Value.C05_cex_*`, all replayable op lines) are in Proofs/C05Value.lean. -/
+Full statement, allocation bounds and the regression witnesses are in Proofs/C05Value.lean. -/
 section values
 open CrashValue
 
-/-- value decoders: every crash of `Unmarshal` (code as it is) is at one of the seven known sites -/
-theorem C05_values_crash_sites (proto : Nat) (t : CT) (dst : Dest) (data : Option Bytes) (s : Site)
-    (h : unmarshal false proto t dst data = .crash s) : C05Value.known s = true :=
-  C05Value.C05_values_crash_sites proto t dst data s h
-
-/-- value decoders: outside the decidable `knownBad` set no bytes crash `Unmarshal` -/
-theorem C05_values_total_partial (proto : Nat) (t : CT) (dst : Dest) (data : Option Bytes)
-    (h : C05Value.knownBad proto t dst data = false) : ∀ s, unmarshal false proto t dst data ≠ .crash s :=
-  C05Value.C05_values_total_partial proto t dst data h
+/-- FULL: no protocol version, type tree, destination and bytes (or NULL) crash `Unmarshal` -/
+theorem C05_values_total (proto : Nat) (t : CT) (dst : Dest) (data : Option Bytes) :
+    ∀ s, unmarshal proto t dst data ≠ .crash s :=
+  C05Value.C05_values_total proto t dst data
 
 end values
 
 /-! ## 5. response-kind dispatch (conn.go / control.go / events.go type switches)
 
-Full statements, the excluded known-bad cells and the lifting lemmas are in Proofs/C05Dispatch.lean;
-the table `Dispatch.dispatch` is compared cell by cell with the table re-extracted from the source
-(go/ast) on every run, and every drivable cell is driven through a real Session in a subprocess. -/
+Full statements and the lifting lemmas are in Proofs/C05Dispatch.lean; the table `Dispatch.dispatch`
+is compared cell by cell with the table re-extracted from the source (go/ast) on every run, and every
+drivable cell is driven through a real Session in a subprocess. -/
 section dispatch
 open Dispatch
 
-/-- ✱ partial: every (site, kind) cell outside `knownBad` does not crash. -/
-theorem C05_dispatch_total_partial (s : Site) (k : FrameKind) (h : knownBad s k = false) :
-    (dispatch false s k).isCrash = false := C05Dispatch.C05_dispatch_total_partial s k h
-/-- exactness: the unchanged code crashes at a cell iff it is known-bad. -/
-theorem C05_dispatch_crash_iff (s : Site) (k : FrameKind) :
-    (dispatch false s k).isCrash = knownBad s k := C05Dispatch.C05_dispatch_crash_iff s k
-/-- ✱ partial: no sequence of frames avoiding the known-bad cells crashes a site's loop. -/
-theorem C05_stream_total_partial (s : Site) (fs : List FrameKind)
-    (h : ∀ k ∈ fs, knownBad s k = false) : siteRun (dispatch false) s fs = none :=
-  C05Dispatch.C05_stream_total_partial s fs h
-theorem C05_stream_crash_iff (s : Site) (fs : List FrameKind) :
-    siteRun (dispatch false) s fs ≠ none ↔ ∃ k ∈ fs, knownBad s k = true :=
-  C05Dispatch.C05_stream_crash_iff s fs
-/-- ✱ partial: no sequence of frames crashes the handshake unless the authenticator returns a nil
-    next challenger. -/
-theorem C05_handshake_total_partial (cfg : AuthCfg) (fs : List FrameKind) (h : cfg.nilAfter = none) :
-    (hsRun (dispatch false) cfg .awaitSupported fs).isCrashed = false :=
-  C05Dispatch.C05_handshake_total_partial cfg fs h
-theorem C05_password_handshake_crash_iff (fs : List FrameKind) :
-    (hsRun (dispatch false) passwordAuth .awaitSupported fs).isCrashed = true ↔
-      [.supported, .authenticate, .authChallenge] <+: fs :=
-  C05Dispatch.C05_password_handshake_crash_iff fs
-/-- counterexamples (known findings KF-C05-disp-1..3) -/
-theorem C05_cex_conn_heartbeat :
-    dispatch false .connHeartBeat .ready = .crash .panicDefault ∧
-    dispatch false .connHeartBeat .resultVoid = .crash .panicDefault := C05Dispatch.C05_cex_conn_heartbeat
-theorem C05_cex_control_heartbeat :
-    dispatch false .controlHeartBeat .ready = .crash .panicDefault ∧
-    dispatch false .controlHeartBeat .resultVoid = .crash .panicDefault := C05Dispatch.C05_cex_control_heartbeat
-theorem C05_cex_nil_challenger :
-    dispatch false (.authHandshake true) .authChallenge = .crash .nilDeref := C05Dispatch.C05_cex_nil_challenger
-theorem C05_cex_password_handshake :
-    hsRun (dispatch false) passwordAuth .awaitSupported [.supported, .authenticate, .authChallenge]
-      = .crashed .nilDeref ∧
-    hsRun (dispatch false) passwordAuth .awaitSupported [.supported, .authenticate]
-      = .authLoop 1 true := C05Dispatch.C05_cex_password_handshake
+/-- FULL: no (site, kind) cell crashes. -/
+theorem C05_dispatch_total (s : Site) (k : FrameKind) : (dispatch s k).isCrash = false :=
+  C05Dispatch.C05_dispatch_total s k
+/-- FULL: no sequence of frames crashes a site's loop (heartbeats, event stream, request sites). -/
+theorem C05_stream_total (s : Site) (fs : List FrameKind) : siteRun dispatch s fs = none :=
+  C05Dispatch.C05_stream_total s fs
+/-- FULL: no sequence of frames crashes the handshake, whatever the authenticator does. -/
+theorem C05_handshake_total (cfg : AuthCfg) (fs : List FrameKind) :
+    (hsRun dispatch cfg .awaitSupported fs).isCrashed = false :=
+  C05Dispatch.C05_handshake_total cfg fs
+/-- KF-C05-26 (open, a resource finding: no crash cell): UNPREPARED re-enters executeQuery /
+    executeBatch, the recursion depth is whatever the server wants -/
 theorem C05_retry_depth_unbounded (n : Nat) :
-    retryDepth false .executeQuery (List.replicate n .unprepared) = n ∧
-    retryDepth false .executeBatch (List.replicate n .unprepared) = n :=
+    retryDepth .executeQuery (List.replicate n .unprepared) = n ∧
+    retryDepth .executeBatch (List.replicate n .unprepared) = n :=
   C05Dispatch.C05_retry_depth_unbounded n
 
 end dispatch
